@@ -31,7 +31,7 @@ def map_scenario(sc):
     # earliest evidence that the pump took a message
     emit_pos = {}
     for e in ev:
-        if e['p'] in ('api.emit.taken', 'decorator.sub.before_out', 'router.handler.received'):
+        if e['p'] in ('api.emit.taken', 'decorator.pump.recv', 'decorator.sub.before_out', 'router.handler.received'):
             u = e['k'][-1]
             if u.startswith('m-') and u not in emit_pos:
                 emit_pos[u] = e['seq']
@@ -41,6 +41,14 @@ def map_scenario(sc):
     sig_late = None
     if sig_seq is not None:
         sig_late = next((e['seq'] for e in ev if e['seq'] > sig_seq and e['p'] in DEPENDS_ON_SIGNAL), None)
+    # goroutine -> handler for the hooks that carry no handler name (decorator pump, decorator Close inside handleClose)
+    g2h = {}
+    for e in ev:
+        k = e.get('k') or []
+        if e['p'] == 'decorator.pump.start' and k and k[0].startswith('th'):
+            g2h[e['g']] = hno(k[0][1:])
+        elif e['p'].startswith('router.handler.handleclose.') and k:
+            g2h[e['g']] = hno(k[0])
     L = []      # (label, obs)
     H = []      # (api event term, hook event)
     uuid2m = {}
@@ -70,10 +78,16 @@ def map_scenario(sc):
         if u not in uuid2m:
             m.problems.append('event for a message the pump never took: ' + u); return None
         return uuid2m[u]
+    def deliver(h, u, e):
+        # pump -> loop hand-off, placed at the earliest evidence (pump's sent stamp, loop's received stamp, or the pump going on);
+        # from here on the Router has TAKEN the message (a message the decorator gives up before is never seen by it)
+        if u in delivered_early: return
+        delivered_early.add(u); lab('LDeliver %d' % h); H.append(('ATaken %d' % uuid2m[u], e))
+        if pump_holds.get(h) == u: pump_holds[h] = None
     def pump_close(h):
         if h not in pump_closed:
             if pump_holds.get(h) is not None:      # the pump handed its last message over before it saw its input closed
-                lab('LDeliver %d' % h); delivered_early.add(pump_holds[h]); pump_holds[h] = None
+                deliver(h, pump_holds[h], None)
             pump_closed.add(h); lab('LPump %d' % h)
     for e in ev:
         p, k, seq = e['p'], e.get('k') or [], e['seq']
@@ -86,9 +100,9 @@ def map_scenario(sc):
             # hand-off rule: the pump can only take the next message after it handed the previous one to the loop;
             # that hand-off is placed at the earlier of its two pieces of evidence (this one, or the loop's stamp)
             if pump_holds.get(h) is not None:
-                lab('LDeliver %d' % h); delivered_early.add(pump_holds[h])
+                deliver(h, pump_holds[h], e)
             pump_holds[h] = u
-            lab('LEmit %d' % h); H.append(('ATaken %d' % uuid2m[u], e))
+            lab('LEmit %d' % h)
         if p == 'api.close.call':
             lab('LCall %d' % int(k[0])); H.append(('ACloseCall %d' % int(k[0]), e))
         elif p == 'api.close.ret':
@@ -118,9 +132,21 @@ def map_scenario(sc):
             x = m_of(k[1])
             if x is not None: lab('LMsg %d' % x)
         elif p == 'router.handler.received':
-            if k[1] not in delivered_early:
-                lab('LDeliver %d' % hno(k[0]))
-                if pump_holds.get(hno(k[0])) == k[1]: pump_holds[hno(k[0])] = None
+            if k[1] in uuid2m: deliver(hno(k[0]), k[1], e)
+        elif p == 'decorator.pump.sent':
+            if k[0] in uuid2m: deliver(int(k[0].split('-')[1]), k[0], e)
+        elif p in ('decorator.pump.dropped_ctx', 'decorator.pump.dropped_closing'):
+            h = int(k[0].split('-')[1])
+            lab(('LPumpDropCtx %d' if p.endswith('_ctx') else 'LPumpDropClosing %d') % h)
+            if pump_holds.get(h) == k[0]: pump_holds[h] = None
+        elif p == 'decorator.pump.closing_out':
+            if e['g'] in g2h: pump_close(g2h[e['g']])
+        elif p == 'decorator.pump.wg_done':
+            if e['g'] in g2h:
+                h = g2h[e['g']]; pump_close(h)
+                if h not in pump_done: pump_done.add(h); lab('LPump %d' % h)
+        elif p == 'decorator.close.signalled':
+            if e['g'] in g2h: lab('LHc %d' % g2h[e['g']])
         elif p in ('router.handler.wg_locked', 'router.handler.wg_added'):
             lab('LLoop %d' % hno(k[0]))
         elif p == 'router.handler.loop_ended':
@@ -196,7 +222,7 @@ SIG = {1: 'C06/handler-starts-after-nil-close(D5)', 2: 'C06/nil-close-while-hand
        11: 'C06/settled-after-nil-close', 12: 'C06/run-returned-while-handler-in-progress', 14: 'C06/second-close-nil-after-timeout(D12)'}
 
 def readable(sc, mp, upto=None):
-    evs = [dict(seq=e['seq'], event=t, hook=e['p'], keys=e.get('k')) for t, e in mp.hist]
+    evs = [dict(seq=(e or {}).get('seq'), event=t, hook=(e or {}).get('p'), keys=(e or {}).get('k')) for t, e in mp.hist]
     return dict(scenario=sc['name'], kind=sc['kind'], handlers=sc['handlers'], close_timeout_ms=sc['close_timeout_ms'], closers=sc['closers'],
                 second_close=sc['second_close'], cancel=sc['cancel'], rules=sc['rules'], close_calls=sc['calls'], run_ret=sc['run_ret'],
                 sub_closes=sc['sub_closes'], pub_closes=sc['pub_closes'],
